@@ -15,6 +15,7 @@ EXTENDS PathString, TLC, Json, SequencesExt
 CONSTANTS MaxToks, TokSet, FixedSep, ForceLast, Emit
 
 Toks == IF TokSet = "full" THEN {"B", "L", "P", "C", "O", "A", "Bc", "Cn"}
+        ELSE IF TokSet = "degree" THEN {"B", "B3", "L", "O", "A", "Cn"}
         ELSE {"B", "L", "P", "O", "A", "Cn"}
 
 RECURSIVE TokSeqs(_, _)
